@@ -1,4 +1,5 @@
 import CsVerif.Model.C13
+import CsVerif.Model.C13Gen
 /-! Line-protocol driver for the C13 model (matching encoders: tools/harness/c13.py).
 
 payload :=  `U <n> (x<hex>|none)*  S <n> <setting>*`
@@ -10,6 +11,10 @@ ops
   `gen <payload>`  the generated tree            `ok pv=T tree <tree>` | `exc <E>`
   `rt  <payload>`  printable?, dictionary of the re-parsed text   `ok text=T reparse=T dict <dict>` | `ok text=F` | `exc <E>`
   `chk <payload>`  the property instance         `wf=F` | `wf=T total=<b> valid=<b> faithful=<b> noempty=<b>`
+  `ggen <payload>` the generated tree computed by the definition TRANSLATED from the source of `from_beacon_config`
+                  (Gen/PyC2Gen.lean, builder API instantiated in Model/C13Gen.lean); same answer format as `gen`
+  `gargs <settings_by_index> <uris>`  the translated definition on arbitrary values (notation: Model/PyUShow.lean)   `ok <value>` | `exc <E>`
+  `pyu <op> <operands>`  one operation of Model/PyU_T13.lean (isbool, items, dditem, ddappend)
 tree  := prefix form, node `n<hex label>:<arity>` (`nN:<arity>` for the label None), tokens `o<hex>` / `s<hex>`
 dict  := entries `<hex key>=<v>;<v>…` sorted by key; v := `r<hex>` | `p<hex>,<hex>` | `t<hex>(,<hex>|,E)*`
 -/
@@ -131,7 +136,34 @@ def showDict (es : List Entry) : String :=
   " ".intercalate (keys.map fun key =>
     key ++ "=" ++ ";".intercalate ((es.filter fun e => keyStr e.1 == key).map fun e => showDVal e.2))
 
+def showPyV : Py PyU.V → String
+  | .ok v => "ok " ++ PyU.vShow v
+  | .error e => "exc " ++ e.name
+
+def vTokG (s : String) : Option PyU.V := PyU.vTok (fun _ => none) C13Gen.clsOf s
+
+/-- `pyu <op> <operands>`: one operation of the run-time library added for `from_beacon_config` (Model/PyU_T13.lean) -/
+def pyuStep : List String → String
+  | ["isbool", a, b] =>
+    match vTokG a, vTokG b with
+    | some a, some (.bool b) => "ok " ++ (if PyU.t13IsBool a b then "T" else "F")
+    | _, _ => "bad-op"
+  | ["items", a] =>
+    match vTokG a with
+    | some a => showPyV (PyU.t13Items a)
+    | none => "bad-op"
+  | ["dditem", a, b] =>
+    match vTokG a, vTokG b with
+    | some a, some b => showPyV (PyU.t13DdItem a b)
+    | _, _ => "bad-op"
+  | ["ddappend", a, b, c] =>
+    match vTokG a, vTokG b, vTokG c with
+    | some a, some b, some c => showPyV (do let d ← PyU.t13DdItem a b; PyU.t13DdAppend d b c)
+    | _, _, _ => "bad-op"
+  | _ => "bad-op"
+
 def step : List String → String
+  | "pyu" :: rest => pyuStep rest
   | "gen" :: ws =>
     match payloadTok ws with
     | none => "bad-op"
@@ -139,6 +171,17 @@ def step : List String → String
       match fromBeaconConfig cfg uris with
       | .error e => "exc " ++ e.name
       | .ok t => "ok pv=T tree " ++ showTree t
+  | "ggen" :: ws =>
+    match payloadTok ws with
+    | none => "bad-op"
+    | some (uris, cfg) =>
+      match C13Gen.fromBeaconConfigG cfg uris with
+      | .error e => "exc " ++ e.name
+      | .ok v => "ok pv=T tree " ++ C13Gen.showRootV v
+  | ["gargs", a, b] =>
+    match vTokG a, vTokG b with
+    | some sbi, some uris => showPyV (C13Gen.fromBeaconConfigV (.inst Gen.PyC2Gen.BeaconConfigCls [sbi, uris]))
+    | _, _ => "bad-op"
   | "rt" :: ws =>
     match payloadTok ws with
     | none => "bad-op"
